@@ -797,6 +797,10 @@ def rule_iter_total(ctx):
     if not heads:
         raise AnalysisError('item decoder loop not found in %s' % f.short)
     ok = cfg.exit not in cfg.reachable(cfg.entry, avoid=heads)
+    if not ok:
+        # a loop flag initialised to a constant (`done = False; while not done:`) makes the bypassing path contradict itself
+        from sa.cfg import feasible_reach
+        ok = not feasible_reach(cfg, cfg.entry, cfg.exit, avoid=heads)
     ctx.ob('A2.iter', f, 'no path to the end of the iterator bypasses the item decoder', ok,
            'the iterator can finish without having run the item decoder: on an exhausted stream it yields nothing, and '
            'Decoder.__call__ falls off its loop and returns None instead of raising' if not ok else 'every path runs the item decoder first',
